@@ -11,6 +11,24 @@ T = {
  "C02": (True, "model_checking", "same explored graph, per-transition successor equality against the rules model, per-state board-consistency invariant, closures (fixpoints) of small material for unbounded histories",
          "Every transition of the explored graphs is executed by the real make_move and compared field by field (raw bitboards, side, rights, en-passant target) with the model successor; consistency invariant on every state; K+R v k and K+P v k explored to fixpoint so histories of any length inside them are covered.",
          "Trusts the rules model; closures that hit their state cap are reported as capped.", "3/C02"),
+ "C03": (True, "model_checking", "exhaustive enumeration of command histories (ucinewgame? position go){1..L} on the real binary under a deterministic node clock, plus a budget sweep movetime 0..T; each go's answer judged against an independent rules model",
+         "All histories of one or two (thorough: three, reduced alphabet) position+go steps over 9 positions (incl. mated, stalemated, single-reply and quiescence-explosion positions) x 10 go parameter sets (depth, movetime 0/1/37/500, clocks at/below the 5 s reserve, with increments), with and without ucinewgame in between, are run on a fresh process each; every budget 0..T is swept on 6 positions on a fresh process, after a completed search and after an interrupted one. Each go must be answered by exactly one bestmove, legal in the position last set, 0000 iff no legal move.",
+         "Virtual time (node clock hook) replaces the wall clock so budgets are node counts; the explosion position with a depth-only go is outside the property.", "3/C03"),
+ "C04": (True, "model_checking", "exhaustive enumeration of position-command histories through the real command handler (every legal move path up to depth d from 13 starts; every reachable grid counter pair for every state near the roots; ordered command pairs; prefixes of long games), board read back via hook and compared with the rules model",
+         "Every legal move path of length <= 2-3 (thorough 3-4) from 13 starts chosen so that castling, promotions, under-promotions, en passant and non-pawn moves onto a just-skipped square all occur, each as one `position ... moves ...` command; every state within 1-2 plies of ~100 roots as a FEN with every counter pair of a 10x9 grid (up to halfmove 150, fullmove 5949) that a real game can reach; every ordered pair over a pool of commands on a fresh engine; every prefix of seeded long games. The engine's raw bitboards, side, rights and en-passant target must equal the model's.",
+         "Trusts the rules model's FEN/UCI reading; malformed input is outside the property and never sent.", "3/C04"),
+ "C08": (True, "model_checking", "complete small-material classes and root neighbourhoods classified by the rules model (mate-in-one set, moves allowing mate in one); every qualifying state searched on a fresh Searcher at depth 1..4 / 2..3",
+         "Every position of K+Q v k, K+R v k (quick: lone king in the a1-d1-d4 triangle; thorough: all), K+P v k with the pawn on the 6th/7th, thorough also K+R+R v k and K+Q v k+r, and every state within 1-2 plies of ~100 special roots is classified by the model; each state with a mate in one is searched at depth 1,2,3,4 and must answer with a mating move; each state with a mix of safe/unsafe moves is searched at depth 2,3 and must not answer with a move that allows mate in one.",
+         "Trusts the rules model for mate detection; bounded position space.", "3/C08"),
+ "C09": (True, "model_checking", "every legal history over a shuffle alphabet up to length L through the real position handler, then the real depth-1 search with the repetition decision traced at ply 1 and compared with occurrence counts in the rules model; depth-1 value vs reference; ordered pairs of position commands",
+         "From 4 starts (start position; K+R v k with a castling right; en-passant capture available; black to move with rights on both sides) every legal sequence over 10-11 reversible/irreversible moves up to length 7-8 (thorough 9-10) is sent as ucinewgame + position ... moves ...; the draw decision the real negamax takes for every root successor must equal 'occurred at least twice before in this game'; the depth-1 score and move must equal max(0 for third occurrences, -quiescence otherwise); command pairs check that an earlier position command's history does not count.",
+         "Candidates on which the strict and the FIDE notion of 'same position' (en-passant target capturable or not) disagree are not judged.", "3/C09"),
+ "C13": (True, "model_checking", "exhaustive enumeration of command histories (<= L units) on the real binary, each under K seeded Zobrist key sets and one unseeded run; outputs compared across runs and across the ucinewgame suffix join",
+         "All 6174 (thorough 111150) histories over 18 units {ucinewgame, bare go, 4 positions x go depth 1..4} are run on a fresh process per key set; the output with time/nps removed must be identical for all key sets, and for every history alpha.ucinewgame.beta the output of beta must equal that of beta alone on a fresh process.",
+         "Key sets and the HashMap RandomState are instantiated (2-4 seeds + unseeded), not enumerated.", "3/C13"),
+ "C16": (True, "model_checking", "exhaustive enumeration of input streams (<= L lines over a 13-symbol protocol alphabet, with/without final newline) on the real binary (hooks off and on); stdout, exit status and termination vs a reference state machine",
+         "Every line sequence up to length 3 over the full alphabet (both binaries, with and without a final newline) and up to length 4 over the 9-symbol core alphabet (thorough: 4 and 5) is fed to a fresh process whose stdin is then closed; the output must parse exactly as the reference prescribes (id lines + uciok per uci, readyok per isready, info* + one legal bestmove per go, nothing else, nothing after quit), exit status 0, exit within the horizon.",
+         "Termination is decided with a 6 s horizon after end of input.", "3/C16"),
  "C05": (True, "model_checking", "memoised unpruned minimax over the explored state graph (subject's own move generator, subject's own full-window quiescence at the leaves) vs find_best_move on a fresh Searcher for every state of depth-limited neighbourhoods, depth 1..3; instrumented fixed-depth searches to depth 4..5",
          "For every state of the listed neighbourhoods (start position to 2 plies, endings to 2-3 plies, middlegame roots) a fresh Searcher is searched to depth 1, 2, 3 and compared with the reference value V(s,k) computed without pruning, ordering or caching: exact equality inside the window, won/lost beyond it, and the returned move must attain the value. Depth 4..5 single fixed-depth searches are compared only when the TT-cutoff counter shows no deeper entry was reused.",
          "Leaf values are the subject's own quiescence values by the property's definition; states whose quiescence exceeds the node cap are excluded and counted.", "3/C05"),
